@@ -5,6 +5,7 @@ import (
 	"verif/core"
 	"verif/e2/check"
 	"verif/e2/families"
+	"verif/e2/spec"
 )
 
 func run(c *core.Ctx) {
@@ -15,7 +16,8 @@ func run(c *core.Ctx) {
 	c.Assume("nil and empty collections are equal; an attribute with a design default that the service left unset is seen with the default; zero of a defaulted primitive (non-pointer field) may be seen as zero or default")
 	c.Assume("values the transport cannot carry are outside the alphabet: control characters in headers, RFC 6265-forbidden cookie characters")
 	c.Assume("the wire is in-memory: http.Request.Write -> http.ReadRequest -> goa muxer on an httptest recorder; the client decodes recorder.Result()")
-	fams := []check.Family{families.ResultSingle(), families.ResultPair(c.Thorough()), families.ResultStatus(), families.Features(), families.CrossService()}
+	fams := []check.Family{families.ResultSingle(), families.ResultPair(c.Thorough()), families.ResultStatus(), families.Features(), families.CrossService(), families.DeepResultShapes(c.Thorough())}
+	c.Rule("deep type structure (JSON bodies): " + spec.DeepShapesDoc + "; values as in C02")
 	if families.OnlyStreams(c) {
 		fams = nil
 	}
